@@ -255,7 +255,7 @@ def boundary_cases(rng, dims, cyl, n_extra):
     if cyl:
         dr, dz = dims
         xy = [(0.0, 0.0), (0.3 * dr, 0.4 * dr), (dr, 0.0), (0.0, -dr), (0.6 * dr, 0.8 * dr), (-dr, 0.0),
-              (dr * math.cos(1.0), dr * math.sin(1.0))]
+              (dr * math.cos(1.0) * (1 - 1e-12), dr * math.sin(1.0) * (1 - 1e-12))]   # last one: inside by more than rounding
         verts = [(x, y, z) for x, y in xy for z in (0.0, -0.0, -dz, -dz / 2)
                  if not (x * x + y * y < 0.99 * dr * dr and z == -dz / 2)]
     else:
@@ -497,7 +497,8 @@ def probe_exit(ctx):
     g = gmod()
     rng = ctx.rng
     n = ctx.n(150, 4000)
-    fixed_cyl = [((10.0, 20.0, -50.0), (PI_61, 1.0, 0.3)), ((10.0, 20.0, -50.0), (PI_61, 0.0, 1.0)), ((10.0, 20.0, -50.0), (1.0, PI_61, 0.3)),
+    fixed_cyl = [((10.0, 20.0, -50.0), (PI_61, 1.0, 0.3)), ((10.0, 20.0, -50.0), (PI_61, 0.0, 1.0)), ((10.0, 20.0, -50.0), (1.0, PI_61, 0.3)), ((10.0, 20.0, -50.0), (PI_61, PI_61, 1.0)), ((10.0, 20.0, -50.0), (0.0, PI_61, -1.0)),
+                 ((10.0, 20.0, -50.0), (1e-12, 1.0, 0.3)), ((999.0, 0.0, -999.0), (-PI_61, 1.0, 1e-9)),
                  ((10.0, 20.0, -50.0), (0.0, 1.0, 0.3)), ((10.0, 20.0, -50.0), (0.0, 0.0, 1.0)), ((10.0, 20.0, -50.0), (0.0, 0.0, -1.0)),
                  ((10.0, 20.0, -50.0), (1.0, 0.0, 0.0)), ((0.0, 0.0, -500.0), (0.0, -1.0, 0.0)), ((0.0, 0.0, -500.0), (1.0, 1.0, 0.0))]
     worst = 0.0
@@ -515,8 +516,6 @@ def probe_exit(ctx):
             lo, hi = slab_oracle(cyl, dims, v, d)
             rep = {"kind": "exit", "cyl": cyl, "dims": list(dims), "vertex": list(v), "direction": list(d)}
             ctx.case(key=("exit-probe", cyl, dims, v, d))
-            # known defect class (known_findings/C13.json): a non-zero horizontal component at rounding level
-            near_axis = cyl and (0 < abs(d[0]) < 1e-12 or 0 < abs(d[1]) < 1e-12)
             what = None
             if res is None:
                 what = "raises ValueError for a vertex in the closed volume and a non-zero direction (the line meets the boundary at %r / %r)" % (
@@ -526,12 +525,11 @@ def probe_exit(ctx):
                 want_en = tuple(v[i] + lo * d[i] for i in range(3))
                 want_ex = tuple(v[i] + hi * d[i] for i in range(3))
                 err = max(max(abs(en[i] - want_en[i]) for i in range(3)), max(abs(ex[i] - want_ex[i]) for i in range(3)))
-                if not near_axis:
-                    worst = max(worst, err / tol)
+                worst = max(worst, err / tol)
                 if not err <= tol:
                     what = "entry/exit %r / %r but the line meets the boundary at %r / %r (error %.3g m, tolerance %.3g m)" % (en, ex, want_en, want_ex, err, tol)
             if what:
-                key = KEY_CYL_WALL if (cyl and on_cyl_wall(dims, v)) else KEY_CYL_NEAR_AXIS if near_axis else "exit-points:%s:%r:%r:%r" % ("cyl" if cyl else "box", dims, v, d)
+                key = "exit-points:%s:%r:%r:%r" % ("cyl" if cyl else "box", dims, v, d)
                 ctx.fail(key, "%s.get_exit_points(vertex=%r, direction=%r) with dimensions %r: %s" % (
                     "CylindricalGenerator" if cyl else "RectangularGenerator", v, d, dims, what), rep)
     ctx.extra["probe_exit_worst_error_over_tolerance"] = round(worst, 6)
@@ -689,10 +687,10 @@ def run(ctx):
                     "the solid-angle / volume formulas in direction_isotropic, cyl_vertex_uniform, box_vertex_uniform are stated, not derived from a measure theory (Archimedes' hat-box theorem is cited)"]
     ctx.assumptions += ["np.random.random_sample/rand/uniform are i.i.d. uniform on [0,1) (the distributional clauses are facts about the map variates -> result)",
                         "theorems are over the real numbers; rounding is covered by the numeric correspondence and probes only",
-                        "exit points: proved in full for the box (totality and soundness of the hand model); for the cylinder only the side-wall candidates of the generic branch are proved, the composition (caps, sorting, d_x = 0 and vertical branches relying on IEEE inf) is validated by correspondence and probes only (partial)",
+                        "exit points: proved in full for both volumes on the closed volume (hand models of the six-face loop and of the parametric cylinder routine, pinned and validated by correspondence); in floats b^2 underflows for a line tangent to the wall within 1e-154 (outside the probed inputs)",
                         "energies come from the user's get_energy callable (not modelled); interaction lengths are C14's",
                         "statistical tests are supplementary evidence (thorough tier), false-alarm probability < 1e-9 by DKW / Hoeffding"]
-    ctx.partial += ["exit_points_cyl_side_partial"]
+    
     try:
         files, side = gen_files(ctx.scratch)
         for k, v in files.items():
